@@ -245,3 +245,18 @@ MUTANTS += [
          ("src/webauthn.rs", "fn from(_icon: &str) -> Self {", "fn from(_icon: String<64>) -> Self {")]),
 ]
 
+# logging compiled in (configuration kL): the arguments of log statements must be total
+MUTANTS += [
+    dict(id="m04-log-arg-slices-text", fires=["C04"], key="log-args", edits=[("src/webauthn.rs",
+         'info_now!("skipping field: {:?}", _err);', 'info_now!("skipping field: {:?} ({})", _err, &s[..8]);')]),
+    dict(id="m19-log-arg-unwraps", fires=["C19"], key="log-args", edits=[("src/ctap2.rs",
+         'debug_now!("CTAP2.GA");', 'debug_now!("CTAP2.GA {}", request.allow_list.as_ref().unwrap().len());')]),
+    dict(id="m08-log-arg-index-before-guard", fires=["C08"], key="bounds", edits=[("src/ctap1.rs",
+         "                let control_byte = ControlByte::try_from(p1)?;\n", "                let control_byte = ControlByte::try_from(p1)?;\n                debug_now!(\"key handle length {}\", request[64]);\n")]),
+]
+BENIGN += [
+    dict(id="b08-log-statement-total-args", note="trace lines with total arguments in the CTAP1 parser and the decoder", edits=[("src/ctap1.rs",
+         "                let control_byte = ControlByte::try_from(p1)?;\n", "                let control_byte = ControlByte::try_from(p1)?;\n                debug_now!(\"authenticate: {} bytes\", request.len());\n"),
+         ("src/webauthn.rs", 'info_now!("skipping field: {:?}", _err);', 'info_now!("skipping field: {:?} ({} bytes)", _err, s.len());')]),
+]
+
